@@ -76,7 +76,7 @@ theorem reachesOrigin_pred : ErrPred ReachesOrigin where
 theorem anyRel : CacheRel (fun _ _ => True) where
   refl _ := trivial
   trans _ _ := trivial
-  emit _ _ := trivial
+  emit _ _ _ := trivial
   setCache _ _ _ := trivial
   setScripts _ _ := trivial
 
@@ -85,7 +85,7 @@ theorem anyRel : CacheRel (fun _ _ => True) where
     exception. -/
 theorem cause_chain_reaches_origin (env : Env) (n : Nat) (op : Op) (e : Expr) (o : V) (s : St) (err : Err)
     (s' : St) (h : ev env n op e o s = some (.error err, s')) : ReachesOrigin err :=
-  ((spec_ev anyRel reachesOrigin_pred env n op e o).run s _ s' h).2 err rfl
+  ((spec_ev anyRel reachesOrigin_pred env (Or.inr fun _ _ _ => trivial) n op e o).run s _ s' h).2 err rfl
 
 /-- the innermost frame of a missing-option failure carries the key -/
 theorem missing_key_reported (env : Env) (run : Run) (n id : Nat) (key : String) (o : V) (s : St)
